@@ -17,7 +17,8 @@ RULE = ("random nondeterministic FSTs (<=3 states, <=6 transitions, several star
         "monitor under a logical step budget and its set of outputs compared with the reference relation for all "
         "input words <=%d; union / concatenate / kleene_star / | / + results are extracted and their relation compared "
         "with the reference relation operation; to_fst() must be the identity on the automaton's language. "
-        "Non-trivial: some word <=%d has an output; distinct = case hash." % (N, N))
+        "Non-trivial: some word <=%d has an output; distinct = case hash." % (N, N) +
+        ' Later additions: hub-shaped transducers, random expressions over union / concatenation / star, label-like symbols; the lists returned by translate are edited and translate asked again; operands and results edited after an operation and the other object translated again; words as tuples / one-shot iterables; the transducer is also compared with the case record.')
 ASSUMPTIONS = ["termination of translate is restated as bounded progress under a step budget"]
 TIERS = {
     "quick": {"workers": 4, "random": 3000},
